@@ -987,6 +987,8 @@ def lockset_analysis(func, table, init=frozenset()):
         (explicit returns and falling off the end); noreturn blocks excluded."""
         out = []
         for pb, _ in func.preds()[func.exit]:
+            if func.blocks[pb].get('noreturn'):
+                continue          # exit(), abort(), parsec_fatal-like calls: not a return
             st = at_end(pb)
             if st is None:
                 continue
